@@ -73,11 +73,11 @@ func checkC07(w *World, r *Report) {
 		return ""
 	}
 	for s := -1; s <= 1; s++ {
-		live := ReachUnder(split, OrderEval(term, twoTermCmp("now", "start", s), nil))
-		vals := live.LiveValues(ca[3])
+		// (the choice may sit in a helper `later(now, start)`: its live results under the same assumption, in split's terms)
+		vals := w.LiveValuesDeep(split, OrderEval(term, twoTermCmp("now", "start", s), nil), ca[3], 2)
 		ok := len(vals) > 0
-		for _, v := range vals {
-			t := term(v)
+		for _, dv := range vals {
+			t := term(dv.Root)
 			switch {
 			case s < 0 && t != "start", s > 0 && t != "now", s == 0 && t == "":
 				ok = false
